@@ -84,20 +84,33 @@ def deviations(cfg):
     return sorted("%s=%s" % (k, str(v).lower() if isinstance(v, bool) else v) for k, v in cfg.items() if DEFAULT_CFG.get(k) != v)
 
 
-def distinct_cfgs(beh_path, workdir, keep=None):
-    """the configurations TLC enumerated (optionally only those whose deviations from the defaults are all in keep)"""
-    seen, out = set(), os.path.join(workdir, "cfgs.jsonl")
+def distinct_cfgs(beh_path, workdir, keep=None, rng=None, sample=60):
+    """the configurations TLC enumerated: with keep, those whose deviations from the defaults are all in keep;
+    without, the default, every single deviation and a seeded sample of the others"""
+    seen, chosen, others = set(), [], []
+    for line in open(beh_path):
+        cfg = json.loads(line)["cfg"]
+        c = json.dumps(cfg, sort_keys=True)
+        if c in seen:
+            continue
+        seen.add(c)
+        dev = deviations(cfg)
+        if keep is not None:
+            if all(d in keep for d in dev):
+                chosen.append(c)
+        elif len(dev) <= 1:
+            chosen.append(c)
+        else:
+            others.append(c)
+    if keep is None and others:
+        others.sort()
+        (rng or __import__("random").Random(1)).shuffle(others)
+        chosen += others[:sample]
+    out = os.path.join(workdir, "cfgs.jsonl")
     with open(out, "w") as o:
-        for line in open(beh_path):
-            cfg = json.loads(line)["cfg"]
-            c = json.dumps(cfg, sort_keys=True)
-            if c in seen:
-                continue
-            if keep is not None and not all(d in keep for d in deviations(cfg)):
-                continue
-            seen.add(c)
+        for c in chosen:
             o.write(c + "\n")
-    return out, len(seen)
+    return out, len(chosen)
 
 
 def corpus(ctx, cfgs_path, maxbytes=0):
@@ -238,7 +251,7 @@ def run(ctx, pid, runs, corpus_keep=None, corpus_maxbytes=0):
     beh, ncases = tlc_cases(ctx, runs)
     ctx.notes["cases_emitted"] = ncases
     ress, evs = replay(ctx, beh)
-    cfgs, ncfg = distinct_cfgs(beh, ctx.work, corpus_keep)
+    cfgs, ncfg = distinct_cfgs(beh, ctx.work, corpus_keep, ctx.rng)
     if ncfg == 0:
         raise MachineryFault("no configuration for the corpus run")
     cres, cev = corpus(ctx, cfgs, corpus_maxbytes)
